@@ -1,6 +1,7 @@
 import Dbg.Spec.C03
 import Dbg.Lemmas.GraphProofs
 import Dbg.Lemmas.GraphSym
+import Dbg.Lemmas.GInvCompress
 /-! # C03 — Extensions and edges denote exactly the real adjacencies, symmetrically
 
 Proved so far, for every graph of the model (any nodes, any K): a link returned by `find_link` points to a node whose
@@ -89,5 +90,27 @@ theorem C03_ginv_decidable (g : G D) (h : ginvOK g = true) : GInv g := ginvOK_so
 
 /-- non-vacuity: two nodes ACGT→CGTA-like chain satisfies the invariant (K = 3, stranded) -/
 example : ginvOK (⟨3, [⟨[0,1,2,3], ⟨0x10⟩, ()⟩, ⟨[2,3,0,0], ⟨0x02⟩, ()⟩], true⟩ : G Unit) = true := by decide
+
+/-- **C03 (the invariant holds for built graphs).** For every well-formed table that is reciprocal towards every present
+    neighbour (`ExtSym2`, what `filter_kmers` + `remove_censored_exts` deliver from reads: `pipeline_table_ok2`) and every
+    symmetric join predicate, the nodes `compress_kmers` produces form a graph satisfying `GInv`. -/
+theorem C03_ginv_of_compress {T : Compress.Table D} {K : Nat} {st : Bool} {join : D → D → Bool} (reduce : D → D → D)
+    (wf : Compress.WF T K st) (hes2 : Filter.ExtSym2 T st) (hj : ∀ a b, join a b = join b a)
+    (out : List (Node D × List Nat)) (ho : Compress.compressKmersC T st join reduce = some out) :
+    GInv (⟨K, out.map (·.1), st⟩ : G D) := Compress.compress_ginv reduce wf hes2 hj out ho
+
+/-- **C03 (symmetry, from reads).** For every read set (empty boundary extensions), K ≥ 4, both summarizers, stranded or
+    not, any hash order: in the graph built by filter → prune → compress every reported edge is reported back (the two sides
+    of a palindromic single-k-mer node counting as one). -/
+theorem C03_edges_symmetric_from_reads (K : Nat) (hK : 4 ≤ K) (reads : List (Seq × Exts × Nat)) (hb : Filter.NoBoundary reads)
+    (sm : Filter.Summarizer) (st : Bool) (join : Filter.Payload → Filter.Payload → Bool) (hj : ∀ a b, join a b = join b a)
+    (reduce : Filter.Payload → Filter.Payload → Filter.Payload) (T : List (Compress.Entry Filter.Payload))
+    (hp : T.Perm (Filter.removeCensoredExts st (Filter.refTable K reads sm st)))
+    (out : List (Node Filter.Payload × List Nat)) (ho : Compress.compressKmersC T st join reduce = some out)
+    (u : Nat) (d : Dir) (es : List (Nat × Dir × Bool))
+    (he : findEdges (⟨K, out.map (·.1), st⟩ : G Filter.Payload) u d = some es) (v : Nat) (s : Dir) (f : Bool) (hm : (v, s, f) ∈ es) :
+    ReachesBack (⟨K, out.map (·.1), st⟩ : G Filter.Payload) u d v s := by
+  obtain ⟨wf, hes2⟩ := Filter.pipeline_table_ok2 K (by omega) reads hb sm st T hp
+  exact edges_symmetric _ (Compress.compress_ginv reduce wf hes2 hj out ho) u d es he v s f hm
 
 end Graph
